@@ -53,7 +53,6 @@ const (
 	keyHvsMissed       = "hvs.first-vote-quorum-not-reported"
 	keyHvsPol          = "hvs.polinfo-unsound"
 	keyHvsPolMissed    = "hvs.polinfo-misses-majority"
-	keyShortSig        = "panic:lib/crypto.SigToPub" // signature shorter than 65 bytes panics the verifier
 )
 
 // ---------------------------------------------------------------- keys and signatures
@@ -293,7 +292,7 @@ func buildValSet(ks []int, powers []int64, class string) *valSet {
 // MaxTotalVotingPower (= 2^60-1, itself divisible by 3) split over 2–3 validators, optionally minus a little and with dust.
 func genValSet(t *rapid.T) *valSet {
 	perm := rapid.Permutation([]int{0, 1, 2, 3, 4, 5, 6, 7, 8, 9, 10, 11}).Draw(t, "keys")
-	if rapid.IntRange(0, 5).Draw(t, "capset") == 0 {
+	if rapid.IntRange(0, 5).Draw(t, "capset") == 5 {
 		max := types.MaxTotalVotingPower
 		third := max / 3
 		var big3 []int64
@@ -489,18 +488,23 @@ func (m *tally) nearThreshold() bool {
 	return false
 }
 
-// d7Shape: the reported id has no quorum, but the ids sharing its hash and part-set hash (any total) together do.
+// d7Shape: the reported id has no quorum, some other id of the history has the same BlockID.Key() although it differs
+// in PartsHeader.Total, and the ids sharing the reported id's hash and part-set hash (any total) together do have one.
 func (m *tally) d7Shape(maj types.BlockID) bool {
 	who := map[int]bool{}
+	collide := false
 	for i := range m.signed {
 		for e := range m.signed[i] {
 			b := m.ids[e]
 			if b.Hash == maj.Hash && b.PartsHeader.Hash == maj.PartsHeader.Hash {
 				who[i] = true
+				if b.PartsHeader.Total != maj.PartsHeader.Total && b.Key() == maj.Key() {
+					collide = true
+				}
 			}
 		}
 	}
-	return m.vs.quorum(m.vs.powerOf(who))
+	return collide && m.vs.quorum(m.vs.powerOf(who))
 }
 
 // checkReports compares what a vote set reports with the tally (every clause of the property about vote sets).
@@ -564,7 +568,7 @@ func honestVote(vs *valSet, chain string, typ kproto.SignedMsgType, h uint64, r 
 	}
 }
 
-var sigMutNames = []string{"flip-r", "flip-s", "v^1", "v^4", "trunc64", "one-byte", "extra-byte", "malleated", "zero65", "v=9"}
+var sigMutNames = []string{"flip-r", "flip-s", "v^1", "v^4", "trunc64", "one-byte", "extra-byte", "malleated", "zero65", "v=9", "r=N", "s=0", "ff65"}
 
 // mutateSig returns a deterministic corruption of a canonical signature.
 func mutateSig(sig []byte, kind int) []byte {
@@ -596,6 +600,16 @@ func mutateSig(sig []byte, kind int) []byte {
 		s = make([]byte, 65)
 	case 9:
 		s[64] = 9
+	case 10: // r = the curve order
+		copy(s[0:32], curveN.Bytes())
+	case 11:
+		for i := 32; i < 64; i++ {
+			s[i] = 0
+		}
+	case 12:
+		for i := range s {
+			s[i] = 0xff
+		}
 	}
 	return s
 }
@@ -821,7 +835,7 @@ func TestVoteSetModel(t *testing.T) {
 				var err error
 				if callGuard(t, hist.text, func() { added, err = set.AddVote(v) }) {
 					added, err = false, fmt.Errorf("panic (known finding)")
-					classes["known-panic-short-signature"] = true
+					classes["known-panic"] = true
 				}
 				if added && vd == vInvalid {
 					ev.Violation(t, keyInvalidAdded, hist.text(), "AddVote added a vote that is not a valid vote of this step (%s), err=%v", desc, err)
